@@ -53,6 +53,11 @@ var c11Queries = []c11q{
 	{"nested-cte", "SELECT id, (WITH c AS (SELECT c FROM `<-{R}u`) SELECT * FROM c) AS s FROM `{R}t`"},
 	{"nested-cte", "SELECT id FROM `{R}t` UNION ALL SELECT id FROM (WITH c AS (SELECT id FROM `{R}t` WHERE a > 1) SELECT * FROM c) AS d"},
 	{"nested-cte", "SELECT * FROM (WITH c AS (SELECT id, FAULT(a) AS a FROM `{R}t`) SELECT * FROM c WHERE a > 100) AS x"},
+	// WITH combined with UNION, and two WITH clauses in one statement
+	{"cte-union", "WITH big AS (SELECT id, a FROM `{R}t` WHERE a > 1) SELECT id FROM big UNION SELECT id FROM big WHERE a > 2"},
+	{"cte-union", "WITH big AS (SELECT id, a FROM `{R}t`) SELECT id FROM `{R}t` UNION ALL SELECT id FROM big UNION SELECT id FROM big"},
+	{"cte-union", "WITH big AS (SELECT id, FAULT(a) AS a FROM `{R}t`) SELECT c FROM `{R}u` UNION ALL SELECT id FROM big"},
+	{"nested-cte", "SELECT * FROM (WITH c AS (SELECT id FROM `{R}t`) SELECT * FROM c) x JOIN (WITH d AS (SELECT c AS id FROM `{R}u`) SELECT * FROM d) y ON x.id = y.id"},
 	// joins whose operands carry no alias (the rows are the caller's own maps, not {alias: row} wrappers)
 	{"join-unaliased", "SELECT * FROM `{R}t` LEFT JOIN `{R}u` ON b = b"},
 	{"join-unaliased", "SELECT * FROM `{R}t` RIGHT JOIN `{R}u` ON a < c"},
@@ -154,6 +159,13 @@ func c11Docs() []func() map[string]any {
 				"u":  []any{map[string]any{"b": "x", "c": 2.0}},
 				"m":  []any{[]any{row(0, 2, "x", 3)}},
 			}
+		},
+		func() map[string]any {
+			// nested arrays whose last element is not an object: clauses that walk them fail part-way
+			r0, r1 := row(0, 1, "x", 1), row(1, 2, "y", 3, 4)
+			r1["items"] = append(r1["items"].([]any)[:2:2], "not an object")
+			r0["grid"] = []any{[]any{1.0}, "not an array"}
+			return map[string]any{"t": []any{r0, r1}, "t2": []any{}, "u": []any{map[string]any{"b": "x", "c": 2.0}, "not an object"}, "m": []any{[]any{r0}, "not an array", []any{r1}}}
 		},
 		func() map[string]any {
 			// one row object shared by two arrays, and one array shared by two keys (aliasing inside the document)
@@ -276,7 +288,7 @@ func (p *c11) RunCase(i int) *core.CaseResult {
 
 func (p *c11) Meta() core.Meta {
 	return core.Meta{
-		Rule: "one case per (query, Wrapped or not): 52 queries covering every clause kind (WHERE operator families, projections incl. star / FUSE / path selectors / pipes, ORDER BY / LIMIT, DISTINCT, GROUP BY / HAVING / aggregates, every join strategy incl. INTO and PARALLEL, UNION, CTEs incl. one that shadows a document key and WITH clauses below the outermost statement, joins without table aliases, derived tables, select-list / IN / EXISTS subqueries with <-, nested FROM and mix=>, ASYNC / SPINASYNC / ONCE / SETVAR functions, dual) and 23 fault templates with FAULT(x) / RAISE_WHEN / a type error in every clause position; on 4 documents (spare capacity with sentinel values in every array, empty, single row, a document whose arrays and rows are aliased); fault templates are run fault-free to count the N invocations of the fault point and then once per k in 1..N. Oracle: cycle-safe deep comparison of the caller's document (keys, values, lengths, spare capacity) with a snapshot taken before New. non-trivial = the query returned rows / a fault fired",
+		Rule: "one case per (query, Wrapped or not): 56 queries covering every clause kind (WHERE operator families, projections incl. star / FUSE / path selectors / pipes, ORDER BY / LIMIT, DISTINCT, GROUP BY / HAVING / aggregates, every join strategy incl. INTO and PARALLEL, UNION, CTEs incl. one that shadows a document key and WITH clauses below the outermost statement, joins without table aliases, derived tables, select-list / IN / EXISTS subqueries with <-, nested FROM and mix=>, ASYNC / SPINASYNC / ONCE / SETVAR functions, dual) and 23 fault templates with FAULT(x) / RAISE_WHEN / a type error in every clause position; on 5 documents (spare capacity with sentinel values in every array, empty, single row, a document whose arrays and rows are aliased); fault templates are run fault-free to count the N invocations of the fault point and then once per k in 1..N. Oracle: cycle-safe deep comparison of the caller's document (keys, values, lengths, spare capacity) with a snapshot taken before New. non-trivial = the query returned rows / a fault fired",
 		Assumptions: []string{"the result may share structure with the input (rows are passed by reference); only writes by the library are violations", "ASYNC functions of the harness do not modify their arguments"},
 		Bounds:      map[string]any{"queries": len(c11Queries), "fault_templates": len(c11Faulted), "documents": len(p.docs)},
 		Exhaustive:  true,
